@@ -127,8 +127,10 @@ class Join(BinaryOperation):
                 )
             operation = self
         # A join with the join identity can only be elided if there is no
-        # predicate left to apply.
+        # predicate left to apply (and never across engines).
         if self.predicate.as_trivial() is True:
+            if lhs.engine != rhs.engine and (lhs.is_join_identity or rhs.is_join_identity):
+                raise EngineError(f"Mismatched join engines: {lhs.engine} != {rhs.engine}.")
             if lhs.is_join_identity:
                 return IgnoreOne(True)
             if rhs.is_join_identity:
